@@ -252,8 +252,40 @@ func runC11(c *Ctx) {
 					if len(sitesOf) == 0 {
 						return false, "no callers"
 					}
+					var rowFromTable func(sf *ssa.Function, a ssa.Value, d int) bool
+					rowFromTable = func(sf *ssa.Function, a ssa.Value, d int) bool {
+						pp := ix.proverFor(sf)
+						rv := pp.resolve(a)
+						if fl, _ := loadedField(rv); fl == hdr {
+							return true
+						}
+						if u, isU := rv.(*ssa.UnOp); isU && u.Op == token.MUL {
+							if ia, isIA := u.X.(*ssa.IndexAddr); isIA {
+								if fl, _ := loadedField(ia.X); fl == rows {
+									return true
+								}
+							}
+						}
+						// the caller forwards its own receiver: look at the caller's callers
+						if par, isPar := rv.(*ssa.Parameter); isPar && d < 3 && len(sf.Params) > 0 && par == sf.Params[0] {
+							up := ix.callSitesOf(sf)
+							if len(up) == 0 {
+								return false
+							}
+							for _, u := range up {
+								if !rowFromTable(u.Fn, u.Call.Common().Args[0], d+1) {
+									return false
+								}
+							}
+							return true
+						}
+						return false
+					}
 					for _, s := range sitesOf {
 						a := s.Call.Common().Args[0]
+						if rowFromTable(s.Fn, a, 0) {
+							continue
+						}
 						pp := ix.proverFor(s.Fn)
 						rv := pp.resolve(a)
 						okRow := false
